@@ -68,24 +68,6 @@ def gcWalk (s : State) (rp : Repo) (subj : List (String × Desc)) : Nat → List
               | some v => gcWalk s rp subj fuel (work ++ viaSubj) walked (seen ++ [v.cfg] ++ v.layers) inIdx
             else gcWalk s rp subj fuel (work ++ viaSubj) walked seen inIdx
 
-/-- one repository collection -/
-def gcRepo (s : State) (r : String) : State :=
-  let rp := s.repo r
-  let c := s.conf
-  let (keepL, subj) := gcPhase1 c rp rp.index.manifests [] []
-  let fuel := 3 * (rp.blobs.length + 1) * (rp.blobs.length + rp.index.manifests.length + s.defs.length + s.resps.length + 2) + keepL.length + 1
-  let (seen, inIdx0) := gcWalk s rp subj fuel keepL [] [] (rp.index.manifests.map (·.dig))
-  -- sweep
-  let swept := rp.blobs.filter fun (d, _) =>
-    !seen.contains d.str ∧ !(c.grace ∧ !rp.old.contains d ∧ !inIdx0.contains d.str)
-  let ix1 := swept.foldl (fun ix (d, _) =>
-    match getDesc ix d.str with | some _ => rmDesc ix { dig := d.str } | none => ix) rp.index
-  let blobs1 := rp.blobs.filter fun (d, _) => !swept.any (·.1 = d)
-  let rp1 : Repo := { rp with blobs := blobs1, index := ix1, old := rp.old.filter fun d => blobs1.any (·.1 = d) }
-  -- index entries without a backing blob
-  let ix2 := inIdx0.foldl (fun ix g => if rp1.hasDigStr g then ix else rmDesc ix { dig := g }) ix1
-  s.setRepo { rp1 with index := ix2 }
-
 /-- JSON round trip of index.json: an empty annotation map comes back nil, child records are not persisted -/
 def roundTrip (ix : Index) : Index :=
   { manifests := ix.manifests.map fun d => if d.ann.len = 0 then { d with ann := {} } else d, children := [] }
@@ -109,11 +91,34 @@ def scanChildren (s : State) (rp : Repo) : Nat → List Desc → List String →
               if st.2.contains c.dig then st else (st.1 ++ [c], st.2 ++ [c.dig])) ([], seen)
             scanChildren s rp fuel (rest ++ fresh.1.filter (fun c => isIndexMT c.mt)) fresh.2 (acc ++ fresh.1)
 
-def reloadRepo (s : State) (rp : Repo) : Repo :=
+/-- a (re)load of index.json: JSON round trip and child scan; upload sessions are not touched -/
+def reindex (s : State) (rp : Repo) : Repo :=
   let ix := roundTrip rp.index
   let fuel := (rp.blobs.length + 2) * (rp.blobs.length + 2)
   let ch := scanChildren s rp fuel (ix.manifests.filter (fun d => isIndexMT d.mt)) (ix.manifests.map (·.dig)) []
-  { rp with index := { ix with children := ch }, uploads := [] }
+  { rp with index := { ix with children := ch } }
+
+def reloadRepo (s : State) (rp : Repo) : Repo := { reindex s rp with uploads := [] }
+
+/-- one repository collection -/
+def gcRepo (s : State) (r : String) : State :=
+  -- the directory store starts a collection with a forced load of index.json (the harness makes the file look
+  -- modified, so that the cached copy is always replaced and the model need not carry the clock)
+  let rp := if s.conf.store = "dir" then reindex s (s.repo r) else s.repo r
+  let c := s.conf
+  let (keepL, subj) := gcPhase1 c rp rp.index.manifests [] []
+  let fuel := 3 * (rp.blobs.length + 1) * (rp.blobs.length + rp.index.manifests.length + s.defs.length + s.resps.length + 2) + keepL.length + 1
+  let (seen, inIdx0) := gcWalk s rp subj fuel keepL [] [] (rp.index.manifests.map (·.dig))
+  -- sweep
+  let swept := rp.blobs.filter fun (d, _) =>
+    !seen.contains d.str ∧ !(c.grace ∧ !rp.old.contains d ∧ !inIdx0.contains d.str)
+  let ix1 := swept.foldl (fun ix (d, _) =>
+    match getDesc ix d.str with | some _ => rmDesc ix { dig := d.str } | none => ix) rp.index
+  let blobs1 := rp.blobs.filter fun (d, _) => !swept.any (·.1 = d)
+  let rp1 : Repo := { rp with blobs := blobs1, index := ix1, old := rp.old.filter fun d => blobs1.any (·.1 = d) }
+  -- index entries without a backing blob
+  let ix2 := inIdx0.foldl (fun ix g => if rp1.hasDigStr g then ix else rmDesc ix { dig := g }) ix1
+  s.setRepo { rp1 with index := ix2 }
 
 /-- Close + New on the same directory, possibly with another configuration (`conf`).
     * directory store: Close collects every open repository (unless read-only), the new server reloads index.json;
